@@ -11,7 +11,7 @@ PROP = dict(
                "per row (11 of them in one container, so containers outgrow the 5 values roaring keeps inline and become mmap-backed after a reopen), one shard per case; writes that wait for the snapshot they enqueue (large importValue, setRow, clearRow) get it served by the harness while they wait; otherwise the queued snapshot runs only at operation boundaries (operations hold the fragment lock, so these are the "
                "schedules the real worker can produce, except inside multi-lock reads such as sum).",
     rule="rapid-generated histories of 1-30 (thorough 45) operations on a set/mutex/bool/int fragment with cache ranked|lru|none, cache size 2|3|50000, "
-         "MaxOpN 2|5|12|40|10000, synchronous or queued snapshots, shard 0|1|5; distinct = hash of configuration and operation history; "
+         "MaxOpN 2|5|12|40|10000, synchronous or queued snapshots, shard 0|1|5, incl. the compound operation client-retry (everything stored is imported once more - for int fragments through the large path when MaxOpN allows - then 1-3 small writes, then Close+Open and a full read-back); distinct = hash of configuration and operation history; "
          "non-trivial = some row was read, then written through a different write path than its previous write, then read again. Unit fieldint: SetValue/importValue(set|clear) histories of 1-12 steps on an in-package int Field with generated (min,max), 7 columns over two shards, reads Value/Sum/Row(f==v) after every step; non-trivial = an import overwrites a stored value with one that needs fewer bits. Unit api: 1-14 (thorough 24) writes through PQL Set/Clear/ClearRow, API.Import, API.ImportRoaring, API.ImportValue on a set field and an int field over 3 shards of an in-process server, incl. ImportValue requests of 2600 values (set, and clear of the stored values) that reach the bulk path, reads Row/Count/Rows/Rows(column)/ExportCSV/Row(v==x)/Row(v<x)/Row(v>x)/Row(v!=null)/Sum; non-trivial = a row (or the int field) was verified, then written through a different path than its previous write.",
     assumptions=["reference model = maps in harness/pkg/_root/gfrag_machine_test.go",
                  "callers' preconditions kept: setRow only on set fragments, roaring import only on set fragments, bool rows 0/1, columns inside the shard, "
